@@ -337,3 +337,20 @@ pub proof fn lemma_muldiv_superadd(r: nat, a: nat, b: nat, t: nat)
     assert(x / t + y / t <= (x + y) / t) by (nonlinear_arith) requires t > 0;
 }
 }
+
+verus! {
+// ---------------------------------------------------------------- more std functions (exact meanings)
+pub assume_specification<T, U, F: FnOnce(T) -> U>[ Option::<T>::map_or ](o: Option<T>, default: U, f: F) -> (r: U)
+    requires o is Some ==> call_requires(f, (o->Some_0,)),
+    ensures
+        o is None ==> r == default,
+        o is Some ==> call_ensures(f, (o->Some_0,), r);
+pub assume_specification<T, F: FnOnce(T) -> bool>[ Option::<T>::is_some_and ](o: Option<T>, f: F) -> (r: bool)
+    requires o is Some ==> call_requires(f, (o->Some_0,)),
+    ensures
+        o is None ==> !r,
+        o is Some ==> call_ensures(f, (o->Some_0,), r);
+pub assume_specification<P: core::str::pattern::Pattern>[ str::ends_with::<P> ](s: &str, p: P) -> (r: bool)
+    where for<'a> <P as core::str::pattern::Pattern>::Searcher<'a>: core::str::pattern::ReverseSearcher<'a>
+    ensures r == (s@.len() >= pat_view(p).len() && s@.skip(s@.len() - pat_view(p).len()) == pat_view(p));
+}
